@@ -635,6 +635,8 @@ class Sym(Exec):
                 self.oblige(st, "%s.variant" % tag, z3.And(v1 < v0, v0 >= 0) if z3.is_int(v0) else z3.And(v1 <= v0 - 1, v0 >= 0), "loop", n)
             raise PathEnd("loop body checked")
         # exit path
+        if z3.is_true(simp(c)):
+            raise PathEnd("while(1): no normal exit")
         if is_do:
             # do-while: state after >=1 iterations satisfies invariant and !cond (invariant stated at loop end)
             st.assume(z3.Not(c))
